@@ -11,7 +11,15 @@ through the real hvsrpy.process() with a fixed FFT length and compared with
   recording);
 * process([record_i]) of every retained recording alone (fresh recording, fresh settings,
   same FFT length): row i must be bit-identical (same code path);
-* frequency vector == requested centres exactly, amplitudes finite and >= 0.
+* frequency vector == requested centres exactly (in the order of the request - the Nyquist block
+  also asks for descending and unsorted centre vectors, including vectors whose LARGEST centre is
+  only slightly above a Nyquist frequency and is not the last element), amplitudes finite and >= 0;
+* the curve of a recording for a permuted centre vector == the correspondingly permuted curve for
+  the ascending vector (the value at a centre does not depend on where the centre stands).
+
+The 'scale' block mixes copies of pool recordings multiplied by 1e9 and 1e-9 (raw counts next to
+metres; H/V is unit invariant) in one list, same time step and different time steps: every row
+must still be bit-identical to the curve of that same scaled recording processed alone.
 
 Families: 'nopad' (equal-length records, fft_settings={"n": None}), 'default'
 (fft_settings=None -> 32768, records of different lengths).
@@ -46,7 +54,9 @@ from hvmc.ref import dtpolicy as RP
 PROPERTY = "C03"
 
 DTS = [0.01, 0.02, 0.05]
-MEMBERS = 4                          # pool index p = 4 * (index of dt) + member
+MEMBERS = 4                          # pool index p = 12 * (index of scale) + 4 * (index of dt) + member
+BASE_POOL = 12                       # = len(DTS) * MEMBERS
+SCALES = [1.0, 1e9, 1e-9]            # amplitude factor of pool member p: SCALES[p // 12]
 L_NOPAD = 64
 L_VARIED = [64, 48, 33, 57]          # length of pool member p in the padded families: [(d + m) % 4]
 POLICIES = list(RP.POLICIES)
@@ -73,7 +83,25 @@ FCS = {
     "mid": [2.0, 5.0, 12.0, 20.0],            # above the Nyquist of dt=0.05 only
     "high": [2.0, 12.0, 30.0, 45.0],          # above the Nyquist of dt=0.05 and 0.02
     "over": [2.0, 30.0, 60.0],                # above every Nyquist
+    # ascending sets whose largest centre is above a Nyquist frequency by a factor < 2, i.e. within the
+    # Konno-Ohmachi b=10 window (10**(3/10) = 2.0) of the 64-point grids: without a guard a FINITE value
+    # would be reported there (further away the window is empty and the NaN is refused anyway)
+    "mid_near": [2.0, 5.0, 12.0],             # above the Nyquist of dt=0.05 only
+    "high_near": [2.0, 12.0, 30.0],           # above the Nyquist of dt=0.05 and 0.02
+    "over_near": [2.0, 30.0, 60.0],           # above every Nyquist
+    # the same centres descending / unsorted (the largest centre is never the last one)
+    "low_desc": [9.5, 7.1, 5.0, 3.3, 2.0],
+    "low_mix": [5.0, 9.5, 2.0, 7.1, 3.3],
+    "mid_desc": [12.0, 5.0, 2.0],
+    "mid_mix": [5.0, 12.0, 2.0],
+    "high_desc": [30.0, 12.0, 2.0],
+    "high_mix": [12.0, 30.0, 2.0],
+    "over_desc": [60.0, 30.0, 2.0],
 }
+# permuted set -> ascending set with the same centres
+PERMUTATION_OF = {"low_desc": "low", "low_mix": "low", "mid_desc": "mid_near", "mid_mix": "mid_near",
+                  "high_desc": "high_near", "high_mix": "high_near", "over_desc": "over_near"}
+ORDER_RTOL = 1e-9
 
 
 # ---------------------------------------------------------------------------
@@ -83,16 +111,25 @@ _PRISTINE = {}
 
 
 def pool_dt(p):
-    return DTS[p // MEMBERS]
+    return DTS[(p % BASE_POOL) // MEMBERS]
+
+
+def pool_scale(p):
+    return SCALES[p // BASE_POOL]
 
 
 def pool_len(p, varied):
-    return L_VARIED[(p // MEMBERS + p % MEMBERS) % 4] if varied else L_NOPAD
+    b = p % BASE_POOL
+    return L_VARIED[(b // MEMBERS + b % MEMBERS) % 4] if varied else L_NOPAD
 
 
 def pristine(p, varied):
-    """(ns, ew, vt) of pool member p: broadband, pairwise different, never modified."""
+    """(ns, ew, vt) of pool member p: broadband, pairwise different, never modified.
+    p >= 12: the arrays of member p % 12 multiplied by SCALES[p // 12]."""
     key = (p, varied)
+    if key not in _PRISTINE and p >= BASE_POOL:
+        c = pool_scale(p)
+        _PRISTINE[key] = tuple(c * x for x in pristine(p % BASE_POOL, varied))
     if key not in _PRISTINE:
         L = pool_len(p, varied)
         ns = A.sig_array(f"noise{3 * p + 1}", L)
@@ -233,10 +270,12 @@ def judge(ctx, root, family, kind, policy, fcsname, ids, res, variant=""):
     fcs = FCS[fcsname]
     dts = [pool_dt(p) for p in ids]
     detail = dict(family=family, kind=kind, kind_parameters=KINDS[kind], policy=policy, centre_frequencies=fcs,
-                  pool_indices=list(ids), time_steps=dts, variant=variant or "fresh-objects",
+                  pool_indices=list(ids), time_steps=dts, amplitude_scales=[pool_scale(p) for p in ids],
+                  variant=variant or "fresh-objects",
                   lengths=[pool_len(p, FAMILIES[family]["varied"]) for p in ids],
                   fft_settings=repr(FAMILIES[family]["fft"]()), smoothing=list(FAMILIES[family]["smoothing"]),
-                  how="recordings = hvmc.checks.c03.build_list(pool_indices, varied=%r); settings = "
+                  how="recordings = hvmc.checks.c03.build_list(pool_indices, varied=%r) (member p %% 12 of the "
+                      "pool times amplitude scale SCALES[p // 12]); settings = "
                       "family_settings(family, kind, policy, fcs name)" % FAMILIES[family]["varied"])
     cands = RP.retained_candidates(dts, policy)
     decisions = [RP.nyquist_decision([dts[i] for i in c], fcs) for c in cands]
@@ -249,6 +288,9 @@ def judge(ctx, root, family, kind, policy, fcsname, ids, res, variant=""):
     if res["status"] == "raised":
         if res["type"] == "ValueError" and any(d in ("refuse", "knife") for d in decisions):
             ctx.count("nyquist_refused")
+            if any(d == "refuse" and RP.nyquist_decision([dts[i] for i in c], fcs[-1:]) == "accept"
+                   for c, d in zip(cands, decisions)):
+                ctx.count("nyquist_refused_although_last_centre_is_below")   # the largest centre is not the last
             ctx.outcome(("refused", policy, tuple(dts), fcsname))
             return True
         nyq = res["type"] == "ValueError" and "Nyquist" in res["msg"]
@@ -324,6 +366,9 @@ def judge(ctx, root, family, kind, policy, fcsname, ids, res, variant=""):
             matched = c
             break
     if matched is not None:
+        if ok and fcsname in PERMUTATION_OF:
+            ok = all([_centre_order(ctx, root, detail, family, kind, policy, fcsname, ids[i], variant)
+                      for i in dict.fromkeys(matched)])
         if ok:
             _stats(ctx, policy, dts, ids, matched, fcs, fcsname)
         return ok
@@ -358,6 +403,44 @@ def judge(ctx, root, family, kind, policy, fcsname, ids, res, variant=""):
     return False
 
 
+_ORDER_DONE = {}
+
+
+def _centre_order(ctx, root, detail, family, kind, policy, fcsname, p, variant=""):
+    """The curve of recording p alone for a permuted centre vector must be the permuted curve for the
+    ascending vector with the same centres (both accepted: the centres are the same).  Once per worker
+    and (settings, recording)."""
+    key = (family, kind, policy, fcsname, p)
+    if key in _ORDER_DONE:
+        return _ORDER_DONE[key]
+    base = PERMUTATION_OF[fcsname]
+    a = alone(ctx, family, kind, policy, fcsname, p)
+    b = alone(ctx, family, kind, policy, base, p)
+    good = True
+    if b["status"] != "ok" or len(b["blocks"]) != len(a["blocks"]):
+        good = False
+        observed = _obs(b)
+        expected = "one curve for the ascending centres " + repr(FCS[base])
+    else:
+        pos = [FCS[base].index(f) for f in FCS[fcsname]]
+        ctx.count("centre_order_compared")
+        for x, y in zip(a["blocks"], b["blocks"]):
+            want = y[:, pos]
+            if x.shape != want.shape or not np.allclose(x, want, rtol=ORDER_RTOL, atol=0.0):
+                good = False
+                observed = dict(centres=FCS[fcsname], curve=x.tolist())
+                expected = dict(centres=FCS[base], curve=y.tolist())
+                break
+    if not good:
+        ctx.violation(_key(kind, policy, [pool_dt(p)], "curve-depends-on-order-of-centres", variant), root,
+                      detail=dict(detail, alone_pool_index=p, ascending_centres=FCS[base], rtol=ORDER_RTOL),
+                      expected=expected, observed=observed,
+                      explanation="process([record]) with a permuted centre-frequency vector does not give, centre "
+                                  "by centre, the values it gives for the ascending vector of the same centres")
+    _ORDER_DONE[key] = good
+    return good
+
+
 def _stats(ctx, policy, dts, ids, kept, fcs, fcsname):
     """Non-vacuity bookkeeping for a case that was compared and agreed."""
     order = []
@@ -370,6 +453,15 @@ def _stats(ctx, policy, dts, ids, kept, fcs, fcsname):
         ctx.count("accepted_above_nyquist_of_dropped_only")
     if len(set(ids[i] for i in kept)) < len(kept):
         ctx.count("repeated_recording_retained")
+    if fcs[-1] != max(fcs):
+        ctx.count("rows_compared_for_unsorted_centres")
+    by_dt = {}
+    for i in kept:
+        by_dt.setdefault(dts[i], []).append(pool_scale(ids[i]))
+    if any(max(v) / min(v) > 1e16 for v in by_dt.values()):
+        ctx.count("rows_compared_same_dt_amplitude_ratio_above_1e16")
+    if len(by_dt) > 1 and max(map(max, by_dt.values())) / min(map(min, by_dt.values())) > 1e16:
+        ctx.count("rows_compared_mixed_dt_amplitude_ratio_above_1e16")
     ctx.outcome(("rows", policy, tuple(dts), tuple(kept), fcsname))
 
 
@@ -378,6 +470,10 @@ def _stats(ctx, policy, dts, ids, kept, fcs, fcsname):
 
 def _pool(dt_idx, members):
     return [MEMBERS * d + m for d in dt_idx for m in members]
+
+
+def _scaled(base, scale_index):
+    return BASE_POOL * scale_index + base
 
 
 def _joint_roots(family, kinds, pool, fcsnames, groups):
@@ -410,6 +506,15 @@ def plan(tier):
                   groups=[[1, 2, 3], [4]]),
         nyq=dict(family="nopad", kinds=list(KINDS), pool=_pool([0, 1, 2], [0] if q else [0, 1]),
                  fcs=["mid", "high", "over"], groups=[[1, 2, 3, 4]] if q else [[1, 2, 3], [4]]),
+        # descending / unsorted centre vectors; the largest centre is never last and, where it is above a
+        # Nyquist frequency, close enough to it that a finite value would come out without the guard
+        nyqorder=dict(family="nopad", kinds=list(KINDS), pool=_pool([0, 1, 2], [0] if q else [0, 1]),
+                      fcs=sorted(PERMUTATION_OF), groups=[[1, 2, 3]] if q else [[1, 2, 3], [4]]),
+        # recordings in raw counts (x 1e9) next to recordings in metres (x 1e-9), same and different time steps
+        scale=dict(family="nopad", kinds=list(KINDS),
+                   pool=[_scaled(0, 1), _scaled(1, 2), _scaled(8, 1), _scaled(9, 2)] +
+                        ([] if q else [_scaled(0, 2), 2]),
+                   fcs=["low"], groups=[[1, 2, 3]] if q else [[1, 2, 3], [4]]),
         dflt=dict(family="default", kinds=TD3 if q else list(KINDS), pool=_pool([0, 2] if q else [0, 1, 2], [0, 1]),
                   fcs=["low"], groups=[[1, 2, 3]] if q else [[1, 2, 3], [4]]),
         hist=dict(kinds=["geometric_mean", "single_azimuth"] if q else list(KINDS), pool=_pool([0, 1, 2], [0]),
@@ -651,7 +756,9 @@ def warm(tier="thorough"):
 
 NON_VACUITY = ["grouping_by_dt_permutes_rows", "dropped_recordings_cases", "majority_tie_cases", "nyquist_refused",
                "accepted_above_nyquist_of_dropped_only", "repeated_recording_retained", "degenerate_refused",
-               "histories", "histories_first_call_refused"]
+               "histories", "histories_first_call_refused", "nyquist_refused_although_last_centre_is_below",
+               "rows_compared_for_unsorted_centres", "centre_order_compared",
+               "rows_compared_same_dt_amplitude_ratio_above_1e16", "rows_compared_mixed_dt_amplitude_ratio_above_1e16"]
 
 
 def finalize(ctx, tier):
@@ -679,12 +786,21 @@ def describe(tier):
              "block) x 3 dissimilar-time-step policies x processing kind x centre-frequency set, FFT length fixed "
              "(nopad*: 64-sample records with fft_settings={'n': None}; default: records of 33..64 samples with "
              "fft_settings=None -> 32768); lists with a repeated recording additionally with the very same object. "
+             "block 'nyqorder': the same lists with descending and unsorted centre vectors (largest centre never "
+             "last; above a Nyquist frequency it stays within the smoothing window, so that only the guard can refuse "
+             "it): a request whose LARGEST centre is above the Nyquist frequency of a processed recording must raise, "
+             "accepted requests must come back in the order of the request, rows bit-identical to the alone-curve for "
+             "the same request, and the alone-curve must be the permuted alone-curve of the ascending request "
+             "(rtol 1e-9). block 'scale': pool recordings multiplied by 1e9 and 1e-9 (and 1 in thorough) mixed in "
+             "one list, same and different time steps; rows bit-identical to the alone-curve of the same scaled "
+             "recording. "
              "history part: every pair (X, Y) of lists processed with ONE settings object carrying "
              "fft_settings={'n': 128}. degenerate part: 5 undefined-ratio recordings x 4 lists x 4 kinds. "
              "distinct non-trivial = distinct (part, family, kind, policy, centre set, list of pool indices) with "
              "at least 2 recordings, resp. distinct (X, Y) histories and degenerate (kind, case, list)",
         bounds=dict(time_steps=DTS, max_list_length=4, policies=POLICIES, kinds=KINDS,
-                    centre_sets=FCS,
+                    centre_sets=FCS, permuted_centre_sets=PERMUTATION_OF, amplitude_scales=SCALES,
+                    pool_index="p = 12 * (index of amplitude scale) + 4 * (index of time step) + member",
                     blocks={k: dict(family=b.get("family", "n128"), kinds=b["kinds"], pool=b["pool"], fcs=b["fcs"],
                                     lists_per_kind_policy_fcs=sz(b) if "groups" in b else None,
                                     history_X_max_len=b.get("xlen"), history_Y_max_len=b.get("ylen"))
@@ -702,6 +818,14 @@ def describe(tier):
             "row equality with process([record]) is bitwise (same code path); one smoothing operator per family "
             "(Konno-Ohmachi b=10 on the 64-point grids, b=40 on the 32768-point grid; thorough adds Parzen and "
             "linear-rectangular families)",
-            "centre-frequency sets are far from every Nyquist frequency (no knife-edge case)",
+            "centre-frequency sets are at least 5 % away from every Nyquist frequency (no knife-edge case); the "
+            "'*_near' / '*_desc' / '*_mix' sets exceed a Nyquist frequency by a factor 1.2 (less than the factor "
+            "2.0 of the Konno-Ohmachi b=10 window), so hvsrpy would report a finite value there if its guard let "
+            "the request pass; any ValueError counts as the demanded refusal",
+            "a curve value belongs to its centre frequency: permuting the requested centres permutes the curve "
+            "(compared with rtol 1e-9 between two alone-runs, not bitwise)",
+            "H/V is unit invariant, so recordings whose amplitudes differ by 1e18 may share a list; the row of a "
+            "scaled recording is compared with the alone-run of the SAME scaled arrays (scaling by 1e9 / 1e-9 is "
+            "not exact in binary, so no comparison across scales is made)",
             "degenerate recordings: any exception counts as refusal; only 'refuse or finite non-negative' is judged",
         ])
